@@ -4,4 +4,5 @@ impl<T: Message<Response = ()>> Default for Broker<T> { #[verifier::external_bod
 impl<T: Message<Response = ()>> Service for Broker<T> {
     #[verifier::external_body] fn from_registry(Tracked(w): Tracked<&mut World>) -> (r: Addr<Self>) { unimplemented!() }
     #[verifier::external_body] fn try_from_registry(Tracked(w): Tracked<&mut World>) -> (r: Option<Addr<Self>>) { unimplemented!() }
+    #[verifier::external_body] fn already_running(Tracked(w): Tracked<&mut World>) -> (r: Option<bool>) { unimplemented!() }
 }
